@@ -1,8 +1,17 @@
 (* Interleavings: every reachable configuration satisfies the invariant of Proofs/RingConc.v, and
    what follows from it (order of the counters, disjoint claims, the consumer never passes an
    uncommitted record, no thread ever panics). *)
-Require Import V.Base.MachineInt V.Generated.GenConsts V.Model.LogBase V.Model.Ring V.Model.RingThreads
-               V.Spec.Fifo V.Proofs.RingArith V.Proofs.RingSeq V.Proofs.RingRender V.Proofs.RingSeqRun V.Proofs.RingConc.
+Require Import V.Base.MachineInt.
+Require Import V.Generated.GenConsts.
+Require Import V.Model.LogBase.
+Require Import V.Model.Ring.
+Require Import V.Model.RingThreads.
+Require Import V.Spec.Fifo.
+Require Import V.Proofs.RingArith.
+Require Import V.Proofs.RingSeq.
+Require Import V.Proofs.RingRender.
+Require Import V.Proofs.RingSeqRun.
+Require Import V.Proofs.RingConc.
 From Coq Require Import ZifyBool Lia.
 Open Scope Z_scope.
 
